@@ -202,7 +202,7 @@ Fixpoint lz_fields (fuel : nat) (bs : bytes) : list (tag * value) * bool :=
      true:  when cigar() took the CG branch, Data::iter()/get() skip the CG field (the repair
             proposed in the known-finding entry; if the committed repair has another shape, e.g.
             strips the field in raw_data(), only [lzp_data_sw]'s [sw] branch has to follow it). ---- *)
-Definition cg_repaired : bool := false.
+Definition cg_repaired : bool := true.
 
 (* record_ref.rs::cigar() took the CG branch: the stored operations are the kSmN placeholder and
    get_raw_cigar found a CG:B,I array *)
